@@ -1203,6 +1203,7 @@ int32_t tls13WritePskKeyExchangeModes(ssl_t *ssl,
     modes = psDynBufDetachPsSize(&modesBuf, &modesLen);
     if (modes == NULL)
     {
+        psDynBufUninit(&buf);
         goto out_internal_failure;
     }
     psDynBufUninit(&modesBuf);
